@@ -84,8 +84,8 @@ static unsigned run_token(const char *tok, int log_all, int cls)
 		else if (!jwt_checker_error(CHK[i])) mask |= 1u << 31;	/* C14's business; recorded only */
 		jwt_checker_error_clear(CHK[i]);
 	}
-	if ((mask & 0x3ff) || log_all || (n_tokens % 499) == 0) {
-		printf("[\"T\",%d,%u,", cls, mask & 0x3ff);
+	if (mask || log_all || (n_tokens % 499) == 0) {
+		printf("[\"T\",%d,%u,", cls, mask);
 		vh_put_hex(stdout, copy, n);
 		printf("]\n");
 	}
